@@ -2688,4 +2688,108 @@ theorem first_or_max {x : Int} {b : Bool} {start r : Nat}
     · have := hall r h1; rw [h2] at this; cases b <;> cases this
     · exact h
 
+theorem skipZero_cons_eq_seekOne (x : Nat) (rest : List Nat) (w start : Nat) :
+    (skipZero ((x &&& maskHi (start % 64)) :: rest) w).map (fun (p : Nat × Nat) => p.1 * 64 + ctz p.2) =
+    seekOne x rest w start := by
+  unfold seekOne
+  rw [skipZero]
+  simp only
+  by_cases hm : x &&& maskHi (start % 64) = 0
+  · rw [if_pos hm, if_pos hm]
+    by_cases hr : rest.length = 0
+    · rw [if_pos hr]
+      have : rest = [] := List.eq_nil_of_length_eq_zero hr
+      rw [this]; simp [skipZero]
+    · rw [if_neg hr]
+  · rw [if_neg hm, if_neg hm]; rfl
+
+theorem drop_cons_of_lt (u : List Nat) (w : Nat) (h : w < u.length) :
+    u.drop w = u.getD w 0 :: u.drop (w + 1) := by
+  rw [List.drop_eq_getElem_cons h]; congr 1
+  rw [List.getD_eq_getElem?_getD, List.getElem?_eq_getElem h]; rfl
+
+/-- mpn_scan1 inside its precondition (a one bit at or after `start` exists): the first such bit -/
+theorem mpn_scan1_correct (u : List Nat) (hu : Limbs u) (start : Nat)
+    (hpre : ∃ j, start ≤ j ∧ (val u).testBit j = true) :
+    ∃ r, mpn_scan1 u start = some r ∧ start ≤ r ∧ (val u).testBit r = true ∧
+      ∀ j, start ≤ j → j < r → (val u).testBit j = false := by
+  obtain ⟨j0, hj0, hb0⟩ := hpre
+  have hw : start / 64 < u.length := by
+    by_contra h
+    rw [testBit_high u hu j0 (by omega) _ (le_refl _)] at hb0; cases hb0
+  unfold mpn_scan1
+  simp only
+  rw [drop_cons_of_lt u _ hw]
+  simp only
+  have hv : ∀ j, start ≤ j → (val u).testBit j =
+      limbBit (u.getD (start / 64) 0 :: u.drop (start / 64 + 1)) (start / 64) j := by
+    intro j hj; rw [testBit_val u hu, limbBit_drop u _ j (by omega)]
+  have hs := seekOne_spec (u.getD (start / 64) 0) (u.drop (start / 64 + 1)) (start / 64) start
+    (Limbs_view u hu _ _ (getD_lt hu _)) rfl
+  have heq := skipZero_cons_eq_seekOne (u.getD (start / 64) 0) (u.drop (start / 64 + 1)) (start / 64) start
+  rw [show (fun (x : Nat × Nat) => match x with | (i, l) => i * 64 + ctz l) =
+      (fun (p : Nat × Nat) => p.1 * 64 + ctz p.2) from rfl, heq]
+  cases hso : seekOne (u.getD (start / 64) 0) (u.drop (start / 64 + 1)) (start / 64) start with
+  | none =>
+    rw [hso] at hs; simp only at hs
+    rw [hv j0 hj0, hs j0 hj0] at hb0; cases hb0
+  | some r =>
+    rw [hso] at hs; simp only at hs
+    obtain ⟨s1, s2, s3, _⟩ := hs
+    exact ⟨r, rfl, s1, by rw [hv _ s1, s2], fun j h1 h2 => by rw [hv _ h1, s3 j h1 h2]⟩
+
+theorem com_n_getD (l : List Nat) (k : Nat) (h : k < l.length) : (com_n l).getD k 0 = lnotL (l.getD k 0) := by
+  unfold com_n
+  rw [List.getD_eq_getElem?_getD, List.getD_eq_getElem?_getD, List.getElem?_map,
+    List.getElem?_eq_getElem h]; rfl
+
+theorem Limbs_com_n (l : List Nat) : Limbs (com_n l) := by
+  intro x hx; unfold com_n at hx
+  obtain ⟨y, _, rfl⟩ := List.mem_map.mp hx
+  unfold lnotL; have := B_pos; omega
+
+/-- mpn_scan0 inside its precondition (a zero bit at or after `start` exists inside the operand) -/
+theorem mpn_scan0_correct (u : List Nat) (hu : Limbs u) (start : Nat)
+    (hpre : ∃ j, start ≤ j ∧ j / 64 < u.length ∧ (val u).testBit j = false) :
+    ∃ r, mpn_scan0 u start = some r ∧ start ≤ r ∧ r / 64 < u.length ∧ (val u).testBit r = false ∧
+      ∀ j, start ≤ j → j < r → (val u).testBit j = true := by
+  obtain ⟨j0, hj0, hk0, hb0⟩ := hpre
+  have hw : start / 64 < u.length := by omega
+  unfold mpn_scan0
+  simp only
+  rw [drop_cons_of_lt u _ hw]
+  simp only
+  have hlen : start / 64 + 1 + (com_n (u.drop (start / 64 + 1))).length = u.length := by
+    unfold com_n; rw [List.length_map, List.length_drop]; omega
+  have hv : ∀ j, start ≤ j → j / 64 < u.length → (val u).testBit j =
+      !limbBit (lnotL (u.getD (start / 64) 0) :: com_n (u.drop (start / 64 + 1))) (start / 64) j := by
+    intro j hj hjl
+    have h64 : j % 64 < 64 := Nat.mod_lt _ (by decide)
+    rw [testBit_val u hu]
+    by_cases hjs : j / 64 = start / 64
+    · rw [limbBit_first _ _ _ _ hjs, hjs, testBit_lnotL _ (getD_lt hu _)]; simp [h64]
+    · rw [limbBit_rest _ _ _ _ (by omega), com_n_getD _ _ (by rw [List.length_drop]; omega),
+        testBit_lnotL _ (getD_lt (Limbs_drop hu _) _)]
+      rw [List.getD_eq_getElem?_getD (l := u.drop (start / 64 + 1)), List.getElem?_drop,
+        List.getD_eq_getElem?_getD]
+      have : start / 64 + 1 + (j / 64 - (start / 64 + 1)) = j / 64 := by omega
+      rw [this]; simp [h64]
+  have hlnot : lnotL (u.getD (start / 64) 0) < B := by unfold lnotL; have := B_pos; omega
+  have hs := seekOne_spec (lnotL (u.getD (start / 64) 0)) (com_n (u.drop (start / 64 + 1))) (start / 64) start
+    (Limbs_cons.mpr ⟨hlnot, Limbs_com_n _⟩) rfl
+  have heq := skipZero_cons_eq_seekOne (lnotL (u.getD (start / 64) 0)) (com_n (u.drop (start / 64 + 1)))
+    (start / 64) start
+  rw [show (fun (x : Nat × Nat) => match x with | (i, l) => i * 64 + ctz l) =
+      (fun (p : Nat × Nat) => p.1 * 64 + ctz p.2) from rfl, heq]
+  cases hso : seekOne (lnotL (u.getD (start / 64) 0)) (com_n (u.drop (start / 64 + 1))) (start / 64) start with
+  | none =>
+    rw [hso] at hs; simp only at hs
+    rw [hv j0 hj0 hk0, hs j0 hj0] at hb0; cases hb0
+  | some r =>
+    rw [hso] at hs; simp only at hs
+    obtain ⟨s1, s2, s3, s4⟩ := hs
+    rw [hlen] at s4
+    exact ⟨r, rfl, s1, s4, by rw [hv _ s1 s4, s2]; rfl,
+      fun j h1 h2 => by rw [hv _ h1 (by omega), s3 j h1 h2]; rfl⟩
+
 end Mpir.Bits
